@@ -58,6 +58,7 @@ func (w *World) beginWrite(t *simcore.Task, arg []int) *WTxn {
 	if tx := tctx(t); tx != nil {
 		tx.holding = wt.tables
 	}
+	t.Acquired = nil
 	w.S.Logf("T%d WriteTxn%v invoke by %s", wt.id, arg, t.Name)
 	fl := w.floorNow()
 	if !w.guard("C05", "WriteTxn", func() { wt.txn = w.db.WriteTxn(metas...) }) {
@@ -66,6 +67,12 @@ func (w *World) beginWrite(t *simcore.Task, arg []int) *WTxn {
 	w.allTxns = append(w.allTxns, wt)
 	t.Op = ""
 	w.S.Logf("T%d WriteTxn return", wt.id)
+	// learn which simulated lock belongs to which table: locks are taken in table creation order
+	if len(t.Acquired) == len(wt.tables) {
+		for k, l := range t.Acquired {
+			w.lockTable[l] = wt.tables[k]
+		}
+	}
 	// mutual exclusion (C05): nobody else may be between WriteTxn and Commit/Abort on these tables
 	for _, ti := range wt.tables {
 		m := w.tables[ti].M
